@@ -126,6 +126,22 @@ def references(ctx: Ctx):
     ctx.check_expr("reference-column", f"{MM}::_PairwiseSigPvals._selected_columns_base", e, want, "the selected column's base comes from the SAME (effective or unweighted) bases as the compared column's, block [b][1] for a subtotal column")
     e = expand(ctx.repo, ci, "_proportions")
     ctx.check_expr("reference-column", f"{MM}::_PairwiseSigTstats._proportions", e, f"{SOM}.column_proportions.blocks")
+    # same-source rule: on every path the selected column's base is taken from self._column_bases
+    e = expand(ctx.repo, pv, "_selected_columns_base", bind={"table_index": ast.Name(id="table_index", ctx=ast.Load())}, stop=stop)
+    roots = []
+    for _g, leaf in strip_ifexp_paths(e):
+        r = leaf
+        while isinstance(r, ast.Subscript):
+            r = r.value
+        roots.append(u(r))
+    foreign = [r for r in roots if r != "self._column_bases"]
+    where = f"{MM}::_PairwiseSigPvals._selected_columns_base [source]"
+    if foreign and all(".blocks" in r or "_bases" in r for r in foreign):
+        ctx.violated("same-base", where, roots, "every path reads self._column_bases", "the degrees of freedom add the base of the selected column and of the compared column: both must be the same kind of base (effective when squared weights exist)")
+    elif foreign:
+        ctx.undecided("same-base", where, str(roots), "every path reads self._column_bases")
+    else:
+        ctx.held("same-base", where, roots, "every path reads self._column_bases")
 
 
 def block_calls(ctx: Ctx):
